@@ -26,6 +26,8 @@ def load_source_module(relpath, name=None):
     loader = importlib.machinery.SourceFileLoader(name, path)
     spec = importlib.util.spec_from_loader(name, loader)
     mod = importlib.util.module_from_spec(spec)
+    # relative imports inside the subject resolve against its real package (whose modules are also .py here)
+    mod.__package__ = os.path.dirname(relpath).replace("/", ".")
     loader.exec_module(mod)
     return mod
 
